@@ -437,6 +437,11 @@ def p2_exec (ctx, c):
   import pox.openflow.of_01 as of01, pox.lib.util as U
   if not _ORIG:
     _ORIG["PIPE_BUF"] = of01.PIPE_BUF
+  if c.get("opcode"):
+    # CPython 3.12 enables per-instruction events for sys.settrace only in settrace calls made AFTER some
+    # frame asked for them (interpreter-wide flag): ask now, before the controlled threads install their
+    # trace function, so that the first execution of a process is traced like all later ones
+    sys._getframe().f_trace_opcodes = True
   W = P2World()
   def pending ():
     ds = W.ds
